@@ -133,6 +133,11 @@ func checkNewCall(
 		return nil
 	}
 
+	// only the builtin allocates: a function or variable that happens to be named new does not
+	if _, isBuiltin := pass.TypesInfo.Uses[ident].(*types.Builtin); !isBuiltin {
+		return nil
+	}
+
 	if len(call.Args) != 1 {
 		return nil
 	}
